@@ -37,6 +37,10 @@ def run(ck):
     r = regen.regen_kernels()
     ck.obligation("translate:T1 kernels (core.py, core_cuda.py) -> gen/KernelsGen.v", r["ok"], r["error"] or "")
     ck.build_theorems("Properties/C01.v", deps=["gen/KernelsGen.vo", "GenRef.vo", "KernelThms.vo"])
+    # the trend of the definition is the least-squares polynomial: the basis the analyzer hands to the kernels must be an
+    # orthonormal basis of the polynomials of degree <= order for EVERY segment length (short, odd, and >= 1024)
+    from .C08 import basis_contract
+    basis_contract(ck)
     n = 100 if ck.tier == "quick" else 1500
     terms, info = [], {}
     dist = {}
